@@ -262,7 +262,60 @@ func jsonEqualAfterInjection(want, got []byte) bool {
 			hd[k] = v
 		}
 	}
+	// ... and the header that differs from post to post: its value must be that of (one of) the post(s) that carried
+	// this very message - not what an earlier post of the session had
+	if _, present := hd["X-Post-Seq"]; !present {
+		if gr, ok := g["resource"].(map[string]interface{}); ok {
+			if gh, ok := gr["headers"].(map[string]interface{}); ok {
+				if v, ok := gh["X-Post-Seq"].(string); ok {
+					if allowed, _ := postSeqs.Load(string(want)); allowed != nil {
+						for _, a := range allowed.([]string) {
+							if a == v {
+								hd["X-Post-Seq"] = v
+							}
+						}
+					}
+				}
+			}
+		}
+	}
 	return jsonValuesEqual(w, g)
+}
+
+// postSeqs: message payload -> values of X-Post-Seq of the data posts that carried it (injection on)
+var postSeqs sync.Map
+var postSeqCtr int64
+
+// notePost gives a data post its own X-Post-Seq value and remembers which messages it carries.
+func notePost(req *http.Request, body string) {
+	k := fmt.Sprintf("post-%d", atomic.AddInt64(&postSeqCtr, 1))
+	req.Header.Set("X-Post-Seq", k)
+	var arr []struct {
+		Msg json.RawMessage `json:"msg"`
+	}
+	if json.Unmarshal([]byte(body), &arr) != nil {
+		return
+	}
+	for _, e := range arr {
+		var text string
+		var bin []string
+		payload := ""
+		if json.Unmarshal(e.Msg, &text) == nil {
+			payload = text
+		} else if json.Unmarshal(e.Msg, &bin) == nil && len(bin) == 1 {
+			if b, err := base64.StdEncoding.DecodeString(bin[0]); err == nil {
+				payload = string(b)
+			}
+		} else {
+			continue
+		}
+		prev, _ := postSeqs.Load(payload)
+		var l []string
+		if prev != nil {
+			l = append(l, prev.([]string)...)
+		}
+		postSeqs.Store(payload, append(l, k))
+	}
 }
 
 // jsonValuesEqual compares decoded JSON values; numbers (json.Number) are compared by their exact
@@ -333,6 +386,7 @@ func (s *shimClient) call(ep, body string, version string) (status int, respBody
 		for k, v := range injectedHeaders {
 			req.Header.Set(k, v)
 		}
+		notePost(req, body)
 	}
 	rec := httptest.NewRecorder()
 	done := make(chan struct{})
